@@ -135,6 +135,74 @@ func ruleMergeShape(c *Ctx) {
 			}
 			l.add("R-MERGESHAPE", b.Name, key, pos, v, f, true)
 		}
+		// M6: the driver encodes what the member merge produced, untouched
+		if dm := b.roleFn("doMergePatch"); dm != nil {
+			for _, cs := range callsTo(dm, func(cc *ssa.CallCommon) bool { return cc.StaticCallee() == mf.mergeDocs }) {
+				key := "(M6) doMergePatch: the merged document goes to the encoder as mergeDocs left it"
+				doc := cs.Common().Args[0]
+				after := reachableAfter(b, cs)
+				bad := ""
+				derived := func(v ssa.Value) bool {
+					for d := 0; d < 6 && v != nil; d++ {
+						if v == doc {
+							return true
+						}
+						switch x := v.(type) {
+						case *ssa.FieldAddr:
+							v = x.X
+						case *ssa.UnOp:
+							v = x.X
+						case *ssa.IndexAddr:
+							v = x.X
+						case *ssa.MakeInterface:
+							v = x.X
+						case *ssa.ChangeType:
+							v = x.X
+						default:
+							return false
+						}
+					}
+					return false
+				}
+				allInstrs(dm, func(i ssa.Instruction) {
+					if !after[i] || i == ssa.Instruction(cs) {
+						return
+					}
+					switch x := i.(type) {
+					case *ssa.Store:
+						if derived(x.Addr) {
+							bad = "a field of the merged document is overwritten at " + b.posOf(i)
+						}
+					case *ssa.MapUpdate:
+						if derived(x.Map) {
+							bad = "the member map of the merged document is updated at " + b.posOf(i)
+						}
+					case ssa.CallInstruction:
+						com := x.Common()
+						f := com.StaticCallee()
+						for _, a := range callArgs(com) {
+							if !derived(a) {
+								continue
+							}
+							if bi, ok := com.Value.(*ssa.Builtin); ok {
+								if bi.Name() == "delete" {
+									bad = "members are deleted from the merged document at " + b.posOf(i)
+								}
+								continue
+							}
+							if f != nil && f.Pkg == b.Codec {
+								continue // the encoder
+							}
+							if f != nil && f.Pkg != nil && f.Pkg.Pkg.Path() == "encoding/json" {
+								continue
+							}
+							bad = "the merged document is handed to " + calleeLabel(com) + " at " + b.posOf(i) + " before it is encoded: a post-processing step can drop or rewrite members that the RFC 7396 merge (or the combination of two patches) put there"
+						}
+					}
+				})
+				add(key, b.posOf(cs), bad == "", "after the member merge only the encoder sees the document", bad)
+			}
+		}
 		// M1: flag pass-through
 		for _, fn := range []*ssa.Function{mf.merge, mf.mergeDocs} {
 			flag := boolParam(fn)
@@ -686,6 +754,57 @@ func ruleCmpShape(c *Ctx) {
 				v, why = Violated, "no length comparison that rejects: arrays of different lengths are walked pairwise (index out of range) or silently truncated"
 			}
 			l.add("R-CMPSHAPE", b.Name, key, b.rel(ca.Pos()), v, why, true)
+		}
+		// every decode failure aborts: in both diff functions each call that fills a local from one of
+		// the []byte parameters and returns an error must have succeeded (err == nil, not merely
+		// "not a syntax error") before anything is diffed or returned as a success. A type
+		// mismatch (a root that is not an object) is a decode failure too.
+		for _, fn := range []*ssa.Function{co, ca} {
+			n := 0
+			allInstrs(fn, func(i ssa.Instruction) {
+				call, ok := i.(*ssa.Call)
+				if !ok || len(errResultOf(call)) == 0 {
+					return
+				}
+				fromParam := false
+				for _, a := range call.Call.Args {
+					if p, _ := paddedOrigin(a, 0); p != nil && p.Parent() == fn {
+						fromParam = true
+					}
+				}
+				hasTarget := false
+				for _, a := range call.Call.Args {
+					if mi, ok := a.(*ssa.MakeInterface); ok {
+						a = mi.X
+					}
+					if _, ok := a.(*ssa.Alloc); ok {
+						hasTarget = true
+					}
+				}
+				if !fromParam || !hasTarget {
+					return
+				}
+				n++
+				key := fmt.Sprintf("%s: decode #%d of an input must succeed before a patch is produced", b.roleNameOf(fn), n)
+				bad := ""
+				for _, r := range liveReturns(fn) {
+					ei := errResultIndex(fn)
+					if ei < 0 || b.definitelyNonNilErr(retVal(r, ei), r.Block(), 0) {
+						continue
+					}
+					if !reachableAfter(b, call)[r] {
+						continue
+					}
+					if ok, why := b.successDominates(call, r); !ok {
+						bad = "the success return at " + b.posOf(r) + " does not lie behind err == nil of this decode (" + why + "): an input that is not an object (or an element that is not one) is read as an empty object instead of rejected"
+					}
+				}
+				if bad != "" {
+					l.add("R-CMPSHAPE", b.Name, key, b.posOf(call), Violated, bad, true)
+				} else {
+					l.add("R-CMPSHAPE", b.Name, key, b.posOf(call), Discharged, "every accepting return reachable from the call is dominated by its err == nil edge", true)
+				}
+			})
 		}
 		// getDiff: both walks (changed/added members of b, deleted members of a) precede every successful return
 		if gd := b.roleFn("getDiff"); gd != nil && len(gd.Params) == 2 {
